@@ -117,6 +117,67 @@ PROPS = {
              "with io.EOF at the end; Seek passes through. Rows and Error() must be identical. Non-trivial: non-empty file and at least one Read returned fewer bytes than "
              "requested although more were available; distinct by case hash. Cases whose unfragmented read fails are discarded and counted (label discarded-baseline-failed).",
     ),
+    "C09": dict(
+        level="fault_enumeration",
+        technique="fault injection enumerated exhaustively over every sink write index of rapid-generated workloads",
+        level_text="Fault enumeration: for each generated workload the sink fails at every write index k = 1..N (N counted in a fault-free run) in three modes; "
+                   "the API call in flight must return a non-nil error and nothing may panic.",
+        level_note="Trusted: the harness's failing io.Writer, which records which API call was executing when it failed. Nothing is asserted about calls after the failing one.",
+        fixtures=["tiny", "flat24", "nest"],
+        gen_anchored=True,
+        stages=[dict(test="TestC09", kind="rapid", quick=64, thorough=960, timeout_thorough=3600)],
+        replay="TestReplayC09",
+        rule="rapid workloads (<= 10 records, <= 3 batches, page size often 1..4, all codecs, fixtures tiny/flat24/nest); for every k in 1..N (N = number of Write calls "
+             "the sink sees in the fault-free run) and mode in {fail once, fail from k on, short write (n<len, err)} the history NewParquetWriter, Add.., Write.., Close is "
+             "replayed; the API call during which the sink first failed must return a non-nil error; no panic. One evaluation = one (workload, k, mode); each is classified by "
+             "the part of the file the k-th write carries (magic, page-header, page-body, footer, footer-length, trailing-magic) per codec - see class_histogram. "
+             "All fault points are non-trivial (a fault is really injected); distinct by (workload hash, k, mode).",
+    ),
+    "C10": dict(
+        level="fault_enumeration",
+        technique="fault injection enumerated exhaustively over every source Read/Seek index of rapid-generated files",
+        level_text="Fault enumeration: for each generated valid file the source fails at every Read/Seek call index k = 1..M (M counted in a fault-free open-and-iterate) "
+                   "in six modes; the reader must report an error or deliver exactly the true rows, and must not panic.",
+        level_note="Trusted: the harness's failing io.ReadSeeker; the injected error is a distinct sentinel, not io.EOF (premature EOF is C11).",
+        fixtures=["tiny", "flat24", "nest"],
+        gen_anchored=True,
+        stages=[dict(test="TestC10", kind="rapid", quick=48, thorough=960, timeout_thorough=5400)],
+        replay="TestReplayC10",
+        rule="rapid workloads (<= 12 records, all codecs, page size often 1..4, fixtures tiny/flat24/nest) written by the library; for every call index k of the source and "
+             "mode in {Read->(0,err), Read->(n/2 bytes,err), Seek->err} x {once, every call from k on} (mode applied to calls of the matching kind) the file is opened and iterated "
+             "with the README loop; pass iff the constructor or Error() reports an error, or all rows were delivered and equal the written records; a panic is a violation. "
+             "One evaluation = one (file, k, mode), all non-trivial (a fault is injected); distinct by (workload hash, k, mode).",
+    ),
+    "C11": dict(
+        level="fault_enumeration",
+        technique="crash-point enumeration: every strict prefix of rapid-generated valid files is opened and iterated",
+        level_text="Fault enumeration over crash points: every byte length 0..len-1 of each generated valid file; the reader must report an error (constructor or Error()) and must not panic.",
+        level_note="Trusted: bytes.Reader as the source. A prefix that is itself a structurally valid file (judged by pqref) would be exempt; such prefixes are counted (label prefix_is_valid_file).",
+        fixtures=["tiny", "flat24", "nest"],
+        gen_anchored=True,
+        stages=[dict(test="TestC11", kind="rapid", quick=640, thorough=16000, timeout_thorough=5400)],
+        replay="TestReplayC11",
+        rule="rapid workloads (<= 16 records, <= 3 row groups, all codecs, fixtures tiny/flat24/nest) written by the library; for every n in 0..len-1 the first n bytes are opened "
+             "with NewParquetReader over bytes.Reader and iterated with the README loop under recover; violation iff no error from the constructor and Error()==nil after iteration, or a panic. "
+             "One evaluation = one (file, n); every cut is non-trivial; classified by where the cut falls (magic, data, footer, tail); distinct by (workload hash, n).",
+    ),
+    "C06": dict(
+        level="exploration",
+        technique="model-based testing of call histories: bounded-exhaustive enumeration of Add/Write words plus rapid-generated long histories, against a list-of-batches model",
+        level_text="Exploration over histories: every word over {Add, Write} up to length 8 (quick) / 11 (thorough) x page size 1..4 x 3 codecs is executed (exhaustive for that bound), "
+                   "plus rapid-generated histories of up to ~200 calls on three fixtures; the resulting file must be exactly the model's list of non-empty batches.",
+        level_note="Trusted: pqref walker/assembler; the model (Write with nothing pending is a no-op; rows pending at Close are not in the file) is the property's own statement.",
+        fixtures=["tiny", "nest", "flat24"],
+        gen_anchored=True,
+        exhaustive_quick=True, exhaustive_thorough=True,
+        stages=[dict(test="TestC06Enum", kind="enum", quick=1, thorough=1), dict(test="TestC06", kind="rapid", quick=2400, thorough=40000)],
+        replay="TestReplayC06",
+        rule="(H1, exhaustive) all words over {Add, Write} of length <= 8 (quick) / <= 11 (thorough), each followed by Close, x page size 1..4 x {uncompressed, snappy, gzip} on "
+             "fixture tiny with numbered records; (H2) rapid histories on tiny/nest/flat24: ops Write | Add(rec) | Add x k with k in {1,2,max-1,max,max+1,2max,2max+1}, page size 1..16. "
+             "Oracle: file valid under the C02 walker with one row group per non-empty batch (num_rows = batch size, FileMetaData.num_rows = sum, every byte accounted for), records decoded "
+             "by pqref and by the generated reader equal concat(batches), Rows() equal. Non-trivial: an empty Write next to a written batch, a batch of exactly k*max rows, or rows "
+             "pending at Close; distinct by word/page size/codec (H1) or case hash (H2). 'exhaustive' refers to H1.",
+    ),
 }
 
 
